@@ -72,6 +72,26 @@ pub fn c05_build(raw: &Raw, _tier: Tier, _sched: bool) -> Scenario {
         }
         b.s.threads[c].push(Op::GateOpen { gate: g });
     } else {
+        // a third of these cases: a second store whose subscriber forwards actions into this one
+        // from inside on_notify, i.e. a producer that is another store's reducer thread. It is
+        // entitled to exactly the same back-pressure as any other producer.
+        if knob(raw, 3) % 3 == 1 {
+            let feeder = b.store("c05-feeder", 16, Pol::Block, Ctor::Builder);
+            let fr = b.reducer(feeder);
+            let fsub = b.sub(SubKind::Direct);
+            b.sub_mut(fsub).forwards = true;
+            b.s.prelude.push(Op::Subscribe { store: feeder, sub: fsub });
+            let th = b.thread();
+            let n = 2 + pick(knob(raw, 4), 2 * cap + 3);
+            for i in 0..n {
+                let a = b.action(feeder, (i % 3) as u8);
+                let f = b.action(s, 3);
+                b.act_mut(a).forward = Some(f);
+                b.s.threads[th].push(Op::Dispatch { act: a, via: VIAS[(knob(raw, 5) as usize + i) % 3] });
+            }
+            let _ = fr;
+            b.s.epilogue.push(Op::Stop { store: feeder, via_trait: false });
+        }
         for ops in raw.threads.iter() {
             let th = b.thread();
             let burst = ops.len().min(3 * cap + 2);
@@ -177,12 +197,15 @@ pub fn c05_check(scn: &Scenario, h: &History) -> Outcome {
             out.nontrivial = true;
         }
     }
+    if d.stores.len() > 1 {
+        out.class("fed-by-another-stores-reducer-thread");
+    }
     out
 }
 
 pub static C05: Profile = Profile {
     id: "C05",
-    rule: "proptest scenarios: capacity 1-4, blocking policy, every constructor path; reducer 0 is a stepper (takes one action per token), 1-3 producers with bursts up to 3*capacity+2, a controller thread releasing tokens in generated batches and finally opening the gate, in a third of these cases a thread that stops the store while producers may still be waiting for room; one third of the cases are exact-capacity probes (primer held, `capacity` dispatches must return with no token released, the next one must wait). Oracle O-BOUND on the event log: at every dispatch return, (#completed dispatches) - (upper bound of actions taken by the reducer) <= capacity; lossless exactly-once after the gate is opened; a producer that is never woken is a deadlock under the schedule-controlled driver. Non-trivial = the bound was reached with the reducer provably inside a callback AND some dispatch was invoked while the queue was provably full and returned only after a later action was taken (or, for probes, the bound was reached); distinct by scenario hash.",
+    rule: "proptest scenarios: capacity 1-4, blocking policy, every constructor path; reducer 0 is a stepper (takes one action per token), 1-3 producers with bursts up to 3*capacity+2, a controller thread releasing tokens in generated batches and finally opening the gate, in a third of these cases a thread that stops the store while producers may still be waiting for room, in another third a second store whose subscriber forwards actions into this one from its own reducer thread; one third of the cases are exact-capacity probes (primer held, `capacity` dispatches must return with no token released, the next one must wait). Oracle O-BOUND on the event log: at every dispatch return, (#completed dispatches) - (upper bound of actions taken by the reducer) <= capacity; lossless exactly-once after the gate is opened; a producer that is never woken is a deadlock under the schedule-controlled driver. Non-trivial = the bound was reached with the reducer provably inside a callback AND some dispatch was invoked while the queue was provably full and returned only after a later action was taken (or, for probes, the bound was reached); distinct by scenario hash.",
     raw,
     build: c05_build,
     check: c05_check,
